@@ -19,7 +19,7 @@ CHECK_DEADLOCK FALSE
 INVARIANT LeafIff
 INVARIANT TagsExact
 """ + ("INVARIANT Emit\n" if emit else "")
-    return core.run_tlc("ElimTreeMC", cfg, workers=16, timeout=3400, heap="8g")
+    return core.run_tlc("ElimTreeMC", cfg, workers=16, timeout=3400, heap="8g", coverage=True)
 
 
 def flatten(tree, prefix, wol, irv):
